@@ -896,7 +896,7 @@ func c17GenBackend(rt *rapid.T) c17Backend {
 		return hex.EncodeToString(bs)
 	}
 	then := rapid.SampledFrom([]string{"", "ok", "drop"}).Draw(rt, "then")
-	switch k := rapid.IntRange(0, 11).Draw(rt, "hostilereply"); k {
+	switch k := rapid.IntRange(0, 12).Draw(rt, "hostilereply"); k {
 	case 0:
 		d := rapid.SampledFrom([]int{1, 1000, -1, 2047, 5}).Draw(rt, "delta")
 		c.Outcome, c.Note = fakecass.Outcome{Kind: "rawframe", RawOp: 8, RawBody: "00000001", RawStreamDelta: d, Then: then}, fmt.Sprintf("a RESULT on stream+%d (not pending)", d)
@@ -931,6 +931,15 @@ func c17GenBackend(rt *rapid.T) c17Backend {
 		c.Outcome, c.Note = fakecass.Outcome{Kind: "rawframe", RawOp: 8, RawBody: "00000002" + "00000001" + "00000003" + "0003" + "6b7331", Then: then}, "a ROWS result with inconsistent metadata"
 	case 11:
 		c.Outcome, c.Note = fakecass.Outcome{Kind: "rawframe", RawOp: 8, RawFlags: 1, RawBody: "ffffffffdeadbeef", Then: then}, "a RESULT flagged compressed on an uncompressed connection"
+	case 12:
+		// well-formed answers on the request's own stream that do not fit the request (a PREPARE answered with a Void
+		// result, a QUERY answered with READY ...)
+		w := rapid.SampledFrom([][3]string{{"8", "00000001", "a well-formed RESULT Void"}, {"8", "00000003" + "0003" + "6b7331", "a well-formed RESULT Set_keyspace"},
+			{"8", "00000005" + "0007" + "43524541544544" + "0008" + "4b45595350414345" + "0003" + "6b7331", "a well-formed RESULT Schema_change"},
+			{"8", "00000002" + "00000004" + "00000000" + "00000000", "a well-formed empty RESULT Rows (no metadata)"},
+			{"2", "", "READY"}, {"16", "ffffffff", "AUTH_SUCCESS"}, {"3", "0001" + "78", "AUTHENTICATE"}, {"14", "00000000", "AUTH_CHALLENGE"}}).Draw(rt, "misfit")
+		op, _ := strconv.Atoi(w[0])
+		c.Outcome, c.Note = fakecass.Outcome{Kind: "rawframe", RawOp: op, RawBody: w[1], Then: then}, w[2]+" in answer to the request"
 	}
 	if rapid.IntRange(0, 2).Draw(rt, "internal") == 0 {
 		c.Internal = rapid.SampledFrom([]string{"options", "use", "system_local", "system_peers"}).Draw(rt, "internalkind")
